@@ -80,3 +80,586 @@ pub fn check_page_index<V: VecLike>(ex: &VecExec<V>) -> Result<(), VMismatch> {
     }
     Ok(())
 }
+
+// =============================================================================================
+// C17 (E-CODEC): round trips at the limits + truncation / bit-flip / field-overwrite mutation of
+// valid encodings for every on-disk codec. The fuzz loop runs in child processes (an allocation
+// failure aborts and cannot be caught); a counting allocator bounds per-call allocation.
+// =============================================================================================
+
+use std::{
+    alloc::{GlobalAlloc, Layout as ALayout, System},
+    cell::Cell,
+    process::{Command, Stdio},
+};
+
+use rawdb::RegionMetadata;
+use serde_json::{Value, json};
+use vecdb::{Bytes, Format, Stamp, Version};
+
+use crate::common::{Counter, Ctx, Report, Rng, TempDir, Violation, catch, normalize_msg};
+
+pub struct CountingAlloc;
+
+thread_local! {
+    static TRACK: Cell<bool> = const { Cell::new(false) };
+    static CUR: Cell<usize> = const { Cell::new(0) };
+    static PEAK: Cell<usize> = const { Cell::new(0) };
+}
+
+unsafe impl GlobalAlloc for CountingAlloc {
+    unsafe fn alloc(&self, l: ALayout) -> *mut u8 {
+        let _ = TRACK.try_with(|t| {
+            if t.get() {
+                CUR.with(|c| {
+                    c.set(c.get() + l.size());
+                    PEAK.with(|p| p.set(p.get().max(c.get())));
+                });
+            }
+        });
+        unsafe { System.alloc(l) }
+    }
+    unsafe fn dealloc(&self, ptr: *mut u8, l: ALayout) {
+        let _ = TRACK.try_with(|t| {
+            if t.get() {
+                CUR.with(|c| c.set(c.get().saturating_sub(l.size())));
+            }
+        });
+        unsafe { System.dealloc(ptr, l) }
+    }
+    unsafe fn realloc(&self, ptr: *mut u8, l: ALayout, new_size: usize) -> *mut u8 {
+        let _ = TRACK.try_with(|t| {
+            if t.get() {
+                CUR.with(|c| {
+                    c.set(c.get().saturating_sub(l.size()) + new_size);
+                    PEAK.with(|p| p.set(p.get().max(c.get())));
+                });
+            }
+        });
+        unsafe { System.realloc(ptr, l, new_size) }
+    }
+}
+
+/// Runs `f` and returns (result, peak bytes allocated by this thread during the call).
+fn measured<R>(f: impl FnOnce() -> R) -> (Result<R, String>, usize) {
+    CUR.with(|c| c.set(0));
+    PEAK.with(|p| p.set(0));
+    TRACK.with(|t| t.set(true));
+    let r = catch(f);
+    TRACK.with(|t| t.set(false));
+    (r, PEAK.with(|p| p.get()))
+}
+
+const PAGE: usize = 4096;
+
+fn enc_meta(start: u64, len: u64, reserved: u64, id: &[u8], id_len_field: Option<u64>) -> Vec<u8> {
+    let mut b = vec![0u8; PAGE];
+    b[0..8].copy_from_slice(&start.to_le_bytes());
+    b[8..16].copy_from_slice(&len.to_le_bytes());
+    b[16..24].copy_from_slice(&reserved.to_le_bytes());
+    b[24..32].copy_from_slice(&id_len_field.unwrap_or(id.len() as u64).to_le_bytes());
+    let n = id.len().min(PAGE - 32);
+    b[32..32 + n].copy_from_slice(&id[..n]);
+    b
+}
+
+fn meta_is_valid(start: u64, len: u64, reserved: u64, id: &[u8]) -> bool {
+    !(start == 0 && len == 0 && reserved == 0 && id.is_empty())
+        && id.len() <= 1024
+        && std::str::from_utf8(id).is_ok()
+        && start % PAGE as u64 == 0
+        && reserved >= PAGE as u64
+        && reserved % PAGE as u64 == 0
+        && len <= reserved
+}
+
+const LIMITS: [u64; 16] = [0, 1, 4095, 4096, 4097, 8192, 1 << 20, (1 << 32) - 1, 1 << 32, (1 << 32) + 4096, 1 << 40, (1 << 63) - 4096, 1 << 63, u64::MAX - 4095, u64::MAX - 1, u64::MAX];
+
+fn mutate(rng: &mut Rng, valid: &[u8], field_offsets: &[usize]) -> (Vec<u8>, &'static str) {
+    let mut b = valid.to_vec();
+    match rng.below(6) {
+        0 => {
+            let cut = rng.below(b.len() + 1);
+            b.truncate(cut);
+            (b, "truncated")
+        }
+        1 => {
+            if !b.is_empty() {
+                let i = rng.below(b.len());
+                b[i] ^= 1 << rng.below(8);
+            }
+            (b, "bit-flip")
+        }
+        2 => {
+            for _ in 0..rng.range(2, 6) {
+                if !b.is_empty() {
+                    let i = rng.below(b.len());
+                    b[i] ^= 1 << rng.below(8);
+                }
+            }
+            (b, "multi-bit-flip")
+        }
+        3 | 4 => {
+            if let Some(&off) = field_offsets.get(rng.below(field_offsets.len().max(1)))
+                && off + 8 <= b.len()
+            {
+                let v = *rng.pick(&LIMITS);
+                b[off..off + 8].copy_from_slice(&v.to_le_bytes());
+            }
+            (b, "field-overwrite")
+        }
+        _ => {
+            let extra = rng.range(1, 9);
+            for _ in 0..extra {
+                b.push(rng.next_u64() as u8);
+            }
+            (b, "extended")
+        }
+    }
+}
+
+struct Fz<'a> {
+    stats: &'a mut Counter,
+    fail: Option<(String, String, Value)>,
+}
+
+impl Fz<'_> {
+    /// Calls a decoder on arbitrary bytes: no panic, bounded allocation; `check` judges an Ok value.
+    fn decode<T>(&mut self, codec: &str, how: &str, input: &[u8], f: impl FnOnce(&[u8]) -> Result<T, String>, check: impl FnOnce(&T) -> Result<(), String>) -> Option<T> {
+        if self.fail.is_some() {
+            return None;
+        }
+        self.stats.bump(&format!("decode:{codec}:{how}"));
+        let (r, peak) = measured(|| f(input));
+        let bound = 4 * input.len() + 64 * 1024;
+        let hex = |b: &[u8]| b.iter().take(96).map(|x| format!("{x:02x}")).collect::<String>();
+        match r {
+            Err(p) => {
+                self.fail = Some((format!("{codec}|panic|{}", normalize_msg(&p)), format!("{codec} decoder panicked on a {how} input of {} bytes: {p}", input.len()), json!({"codec": codec, "mutation": how, "input_len": input.len(), "input_hex_prefix": hex(input)})));
+                None
+            }
+            Ok(res) => {
+                if peak > bound {
+                    self.fail = Some((format!("{codec}|allocation"), format!("{codec} decoder allocated {peak} bytes for a {how} input of {} bytes (bound {bound})", input.len()), json!({"codec": codec, "mutation": how, "input_len": input.len(), "input_hex_prefix": hex(input)})));
+                    return None;
+                }
+                match res {
+                    Ok(v) => {
+                        self.stats.bump(&format!("accepted:{codec}"));
+                        if let Err(why) = check(&v) {
+                            self.fail = Some((format!("{codec}|accepted-invalid"), format!("{codec} decoder accepted a {how} input but the value violates the type's rules: {why}"), json!({"codec": codec, "mutation": how, "input_len": input.len(), "input_hex_prefix": hex(input)})));
+                            return None;
+                        }
+                        Some(v)
+                    }
+                    Err(_) => {
+                        self.stats.bump(&format!("rejected:{codec}"));
+                        None
+                    }
+                }
+            }
+        }
+    }
+
+    fn must(&mut self, cond: bool, sig: &str, what: String) {
+        if !cond && self.fail.is_none() {
+            self.fail = Some((sig.to_string(), what, json!({})));
+        }
+    }
+}
+
+fn check_meta(m: &RegionMetadata) -> Result<(), String> {
+    if m.start() % PAGE != 0 {
+        return Err(format!("start {} not page-aligned", m.start()));
+    }
+    if m.reserved() < PAGE || m.reserved() % PAGE != 0 {
+        return Err(format!("reserved {} not a positive page multiple", m.reserved()));
+    }
+    if m.len() > m.reserved() {
+        return Err(format!("len {} > reserved {}", m.len(), m.reserved()));
+    }
+    if m.id().len() > 1024 {
+        return Err(format!("id of {} bytes", m.id().len()));
+    }
+    Ok(())
+}
+
+fn numeric_roundtrips(fz: &mut Fz<'_>, rng: &mut Rng) {
+    macro_rules! num {
+        ($($t:ty),*) => {$(
+            for _ in 0..8 {
+                let v: $t = match rng.below(5) { 0 => <$t>::MAX, 1 => <$t>::MIN, 2 => 0 as $t, 3 => 1 as $t, _ => rng.next_u64() as $t };
+                let b = v.to_bytes();
+                let name = concat!("numeric<", stringify!($t), ">");
+                let back = fz.decode(name, "valid", b.as_ref(), |x| <$t>::from_bytes(x).map_err(|e| e.to_string()), |_| Ok(()));
+                fz.must(back.map(|x| x.to_bytes()) == Some(b), "numeric|roundtrip", format!("{name}: decode(encode(x)) != x"));
+                // wrong lengths must be refused
+                let mut short = b.as_ref().to_vec();
+                short.pop();
+                let r = fz.decode(name, "truncated", &short, |x| <$t>::from_bytes(x).map_err(|e| e.to_string()), |_| Err("a value was decoded from a short slice".into()));
+                let _ = r;
+                let mut long = b.as_ref().to_vec();
+                long.push(0);
+                let _ = fz.decode(name, "extended", &long, |x| <$t>::from_bytes(x).map_err(|e| e.to_string()), |_| Err("a value was decoded from an over-long slice".into()));
+            }
+        )*};
+    }
+    num!(u8, u16, u32, u64, u128, usize, i8, i16, i32, i64, i128, isize);
+    for _ in 0..8 {
+        let v = f64::from_bits(rng.next_u64());
+        let b = v.to_bytes();
+        let back = fz.decode("numeric<f64>", "valid", b.as_ref(), |x| f64::from_bytes(x).map_err(|e| e.to_string()), |_| Ok(()));
+        fz.must(back.map(|x| x.to_bits()) == Some(v.to_bits()), "numeric|roundtrip", "f64 bit pattern not preserved".into());
+        let v = f32::from_bits(rng.next_u64() as u32);
+        let b = v.to_bytes();
+        let back = fz.decode("numeric<f32>", "valid", b.as_ref(), |x| f32::from_bytes(x).map_err(|e| e.to_string()), |_| Ok(()));
+        fz.must(back.map(|x| x.to_bits()) == Some(v.to_bits()), "numeric|roundtrip", "f32 bit pattern not preserved".into());
+    }
+    macro_rules! arr {
+        ($($n:expr),*) => {$(
+            {
+                let mut v = [0u8; $n];
+                for x in v.iter_mut() { *x = rng.next_u64() as u8; }
+                let b = v.to_bytes();
+                let name = concat!("array<", stringify!($n), ">");
+                let back = fz.decode(name, "valid", b.as_ref(), |x| <[u8; $n]>::from_bytes(x).map_err(|e| e.to_string()), |_| Ok(()));
+                fz.must(back == Some(v), "array|roundtrip", format!("{name}: decode(encode(x)) != x"));
+                let _ = fz.decode(name, "truncated", &b[..$n - 1], |x| <[u8; $n]>::from_bytes(x).map_err(|e| e.to_string()), |_| Err("decoded from a short slice".into()));
+                let mut long = b.to_vec();
+                long.push(7);
+                let _ = fz.decode(name, "extended", &long, |x| <[u8; $n]>::from_bytes(x).map_err(|e| e.to_string()), |_| Err("decoded from an over-long slice".into()));
+            }
+        )*};
+    }
+    arr!(1, 2, 3, 4, 5, 7, 8, 15, 16, 17, 20, 31, 32, 33, 64, 65);
+    // derive-generated impls
+    {
+        use crate::vecmodel::WB;
+        let v = WB(rng.next_u64());
+        let b = v.to_bytes();
+        let back = fz.decode("derive(Bytes)", "valid", b.as_ref(), |x| WB::from_bytes(x).map_err(|e| e.to_string()), |_| Ok(()));
+        fz.must(back == Some(v), "derive|roundtrip", "derive(Bytes): decode(encode(x)) != x".into());
+        let _ = fz.decode("derive(Bytes)", "truncated", &b.as_ref()[..7], |x| WB::from_bytes(x).map_err(|e| e.to_string()), |_| Err("decoded from a short slice".into()));
+    }
+    for v in [0u64, 1, u64::MAX, rng.next_u64()] {
+        let s = Stamp::new(v);
+        let back = fz.decode("Stamp", "valid", s.to_bytes().as_ref(), |x| Stamp::from_bytes(x).map_err(|e| e.to_string()), |_| Ok(()));
+        fz.must(back.map(u64::from) == Some(v), "stamp|roundtrip", "Stamp round trip".into());
+        let ver = Version::new(v as u32);
+        let back = fz.decode("Version", "valid", ver.to_bytes().as_ref(), |x| Version::from_bytes(x).map_err(|e| e.to_string()), |_| Ok(()));
+        fz.must(back.map(u32::from) == Some(v as u32), "version|roundtrip", "Version round trip".into());
+    }
+    for byte in 0..=255u8 {
+        let r = fz.decode("Format", if [0u8, 1, 64, 65, 66].contains(&byte) { "valid" } else { "invalid-tag" }, &[byte], |x| Format::from_bytes(x).map_err(|e| e.to_string()), |f| if f.to_bytes()[0] == byte { Ok(()) } else { Err("format tag not preserved".into()) });
+        fz.must(r.is_some() == [0u8, 1, 64, 65, 66].contains(&byte), "format|tag", format!("Format::from_bytes([{byte}]) accepted/refused wrongly"));
+    }
+}
+
+fn fuzz_metadata(fz: &mut Fz<'_>, rng: &mut Rng, rounds: usize) {
+    let dec = |x: &[u8]| RegionMetadata::from_bytes(x).map_err(|e| e.to_string());
+    for _ in 0..rounds {
+        // structured values at and around the limits (valid and invalid)
+        let start = *rng.pick(&LIMITS);
+        let len = *rng.pick(&LIMITS);
+        let reserved = *rng.pick(&LIMITS);
+        let id: Vec<u8> = match rng.below(7) {
+            0 => vec![],
+            1 => b"a".to_vec(),
+            2 => vec![b'x'; 1024],
+            3 => vec![b'y'; 1025],
+            4 => vec![0xff, 0xfe, 0x80],
+            5 => "r/é∂/2".as_bytes().to_vec(),
+            _ => (0..rng.range(1, 64)).map(|_| b'a' + rng.below(26) as u8).collect(),
+        };
+        let valid = meta_is_valid(start, len, reserved, &id);
+        let bytes = enc_meta(start, len, reserved, &id, None);
+        let got = fz.decode("RegionMetadata", if valid { "valid" } else { "invalid-field" }, &bytes, dec, check_meta);
+        if valid {
+            let ok = got.as_ref().is_some_and(|m| m.start() as u64 == start && m.len() as u64 == len && m.reserved() as u64 == reserved && m.id().as_bytes() == &id[..]);
+            fz.must(ok, "RegionMetadata|roundtrip", format!("a valid slot (start {start}, len {len}, reserved {reserved}, id {} bytes) did not decode to the same fields", id.len()));
+        } else {
+            fz.must(got.is_none(), "RegionMetadata|accepted-invalid", format!("an invalid slot (start {start}, len {len}, reserved {reserved}, id {} bytes) was accepted", id.len()));
+        }
+        // a valid slot, mutated
+        let base = enc_meta(4096 * rng.below(1000) as u64, rng.below(4096) as u64, 4096 * rng.range(1, 8) as u64, b"region/name", None);
+        let (m, how) = mutate(rng, &base, &[0, 8, 16, 24]);
+        let _ = fz.decode("RegionMetadata", how, &m, dec, check_meta);
+        // id_len field lying about the id
+        let lying = enc_meta(0, 10, 4096, b"abc", Some(*rng.pick(&LIMITS)));
+        let _ = fz.decode("RegionMetadata", "field-overwrite", &lying, dec, check_meta);
+    }
+}
+
+fn fuzz_header_page(fz: &mut Fz<'_>, rng: &mut Rng, rounds: usize) {
+    let formats = [Format::Bytes, Format::ZeroCopy, Format::Pco, Format::LZ4, Format::Zstd];
+    for _ in 0..rounds {
+        let (hv, vv, cv) = (rng.next_u64() as u32, *rng.pick(&[0u32, 1, u32::MAX, 7]), rng.next_u64() as u32);
+        let st = *rng.pick(&LIMITS);
+        let f = *rng.pick(&formats);
+        let bytes = vecdb::verif_header_to_bytes(Version::new(hv), Version::new(vv), Version::new(cv), Stamp::new(st), f);
+        let dec = |x: &[u8]| vecdb::verif_header_from_bytes(x).map_err(|e| e.to_string());
+        let got = fz.decode("Header", "valid", &bytes, dec, |_| Ok(()));
+        let ok = got.is_some_and(|(a, b, c, s, g)| u32::from(a) == hv && u32::from(b) == vv && u32::from(c) == cv && u64::from(s) == st && g.to_bytes() == f.to_bytes());
+        fz.must(ok, "Header|roundtrip", "header fields not preserved".into());
+        let (m, how) = mutate(rng, &bytes, &[0, 4, 8, 12]);
+        let _ = fz.decode("Header", how, &m, dec, |(_, _, _, _, g)| if [0u8, 1, 64, 65, 66].contains(&g.to_bytes()[0]) { Ok(()) } else { Err("unknown format tag".into()) });
+
+        let (ps, pb, pv, raw) = (*rng.pick(&LIMITS), rng.next_u64() as u32, (rng.next_u64() as u32) & 0x7fff_ffff, rng.chance(1, 2));
+        let bytes = vecdb::verif_page_to_bytes(ps, pb, pv, raw);
+        let dec = |x: &[u8]| vecdb::verif_page_from_bytes(x).map_err(|e| e.to_string());
+        let got = fz.decode("Page", "valid", &bytes, dec, |_| Ok(()));
+        fz.must(got == Some((ps, pb, pv, raw)), "Page|roundtrip", format!("page entry (start {ps}, bytes {pb}, values {pv}, raw {raw}) not preserved: {got:?}"));
+        let (m, how) = mutate(rng, &bytes, &[0, 8]);
+        let _ = fz.decode("Page", how, &m, dec, |_| Ok(()));
+    }
+}
+
+fn build_change(rng: &mut Rng, size: usize, raw: bool) -> (Vec<u8>, Vec<usize>, (u64, usize, usize, usize, usize)) {
+    // stamp, prev_stored_len, stored_len, truncated, [vals], prev_pushed, [vals], pushed, [vals] (+ raw tail)
+    let stamp = rng.next_u64() % 1000;
+    let stored = rng.below(50);
+    let truncated = rng.below(6);
+    let prev_stored = stored + truncated;
+    let prev_pushed = rng.below(5);
+    let pushed = rng.below(6);
+    let mut b = vec![];
+    let mut offs = vec![];
+    b.extend(stamp.to_le_bytes());
+    for v in [prev_stored, stored, truncated] {
+        offs.push(b.len());
+        b.extend((v as u64).to_le_bytes());
+    }
+    let mut vals = |b: &mut Vec<u8>, n: usize| {
+        for _ in 0..n * size {
+            b.push(rng.next_u64() as u8);
+        }
+    };
+    vals(&mut b, truncated);
+    offs.push(b.len());
+    b.extend((prev_pushed as u64).to_le_bytes());
+    vals(&mut b, prev_pushed);
+    offs.push(b.len());
+    b.extend((pushed as u64).to_le_bytes());
+    vals(&mut b, pushed);
+    if raw {
+        let modified = rng.below(5);
+        offs.push(b.len());
+        b.extend((modified as u64).to_le_bytes());
+        for _ in 0..modified {
+            b.extend((rng.below(prev_stored + 1) as u64).to_le_bytes());
+        }
+        for _ in 0..modified * size {
+            b.push(rng.next_u64() as u8);
+        }
+        let holes = rng.below(4);
+        offs.push(b.len());
+        b.extend((holes as u64).to_le_bytes());
+        for _ in 0..holes {
+            b.extend((rng.below(60) as u64).to_le_bytes());
+        }
+    }
+    (b, offs, (stamp, prev_stored, stored, truncated, prev_pushed))
+}
+
+fn fuzz_changes(fz: &mut Fz<'_>, rng: &mut Rng, rounds: usize) {
+    macro_rules! base {
+        ($t:ty, $name:expr) => {{
+            let size = size_of::<$t>();
+            let (rec, offs, (stamp, prev_stored, _stored, truncated, prev_pushed)) = build_change(rng, size, false);
+            let dec = |x: &[u8]| vecdb::verif_parse_base_change::<$t>(x).map_err(|e| e.to_string());
+            let got = fz.decode($name, "valid", &rec, dec, |_| Ok(()));
+            let ok = got.is_some_and(|(s, psl, tstart, tv, pp)| u64::from(s) == stamp && psl == prev_stored && tstart == prev_stored - truncated && tv.len() == truncated && pp.len() == prev_pushed);
+            fz.must(ok, "ChangeRecord|roundtrip", format!("{}: a well-formed record did not parse to its parts", $name));
+            for _ in 0..4 {
+                let (m, how) = mutate(rng, &rec, &offs);
+                let _ = fz.decode($name, how, &m, dec, |(_, psl, tstart, tv, _)| if tstart + tv.len() == *psl { Ok(()) } else { Err("inconsistent truncation fields accepted".into()) });
+            }
+            // every truncation length
+            for cut in 0..rec.len() {
+                let _ = fz.decode($name, "truncated", &rec[..cut], dec, |_| Err(format!("a record cut to {cut} of {} bytes was accepted", rec.len())));
+            }
+        }};
+    }
+    for _ in 0..rounds {
+        base!(u8, "ChangeRecord<u8>");
+        base!(u32, "ChangeRecord<u32>");
+        base!(u64, "ChangeRecord<u64>");
+        base!(u128, "ChangeRecord<u128>");
+        base!([u8; 3], "ChangeRecord<[u8;3]>");
+        // raw records (with the modified-slot and previous-holes sections)
+        let (rec, offs, _) = build_change(rng, 8, true);
+        let dec = |x: &[u8]| vecdb::verif_parse_raw_change::<u64>(x).map_err(|e| e.to_string());
+        let got = fz.decode("RawChangeRecord<u64>", "valid", &rec, dec, |_| Ok(()));
+        fz.must(got.is_some(), "ChangeRecord|roundtrip", "a well-formed raw record was refused".into());
+        for _ in 0..6 {
+            let (m, how) = mutate(rng, &rec, &offs);
+            let _ = fz.decode("RawChangeRecord<u64>", how, &m, dec, |_| Ok(()));
+        }
+        for cut in 0..rec.len() {
+            let _ = fz.decode("RawChangeRecord<u64>", "truncated", &rec[..cut], dec, |_| Err(format!("a raw record cut to {cut} of {} bytes was accepted", rec.len())));
+        }
+    }
+}
+
+/// Crafted `regions` files: valid slots interleaved with damaged ones; exactly the valid ones
+/// must be present after `Database::open`, and the open must not panic.
+fn fuzz_regions_file(fz: &mut Fz<'_>, rng: &mut Rng, rounds: usize) {
+    for _ in 0..rounds {
+        let tmp = TempDir::new("regfile");
+        let dir = tmp.path().join("db");
+        std::fs::create_dir_all(&dir).unwrap();
+        let n = rng.range(1, 8);
+        let mut file = vec![];
+        let mut want: Vec<(String, u64, u64, u64)> = vec![];
+        let mut next_start = 0u64;
+        for i in 0..n {
+            let reserved = 4096 * rng.range(1, 4) as u64;
+            let len = rng.below(reserved as usize + 1) as u64;
+            let id = format!("region{i}");
+            let good = enc_meta(next_start, len, reserved, id.as_bytes(), None);
+            match rng.below(4) {
+                0 => {
+                    // damaged slot: must be ignored
+                    let mut bad = good.clone();
+                    match rng.below(4) {
+                        0 => bad[0..8].copy_from_slice(&(next_start + 1).to_le_bytes()),
+                        1 => bad[8..16].copy_from_slice(&(reserved + 1).to_le_bytes()),
+                        2 => bad[24..32].copy_from_slice(&5000u64.to_le_bytes()),
+                        _ => bad[32] = 0xff,
+                    }
+                    file.extend(bad);
+                }
+                1 => file.extend(vec![0u8; PAGE]), // empty slot
+                _ => {
+                    file.extend(good);
+                    want.push((id, next_start, len, reserved));
+                    next_start += reserved;
+                }
+            }
+        }
+        std::fs::write(dir.join("regions"), &file).unwrap();
+        std::fs::write(dir.join("data"), vec![0x5a; next_start as usize + 4096]).unwrap();
+        fz.stats.bump("decode:regions-file:crafted");
+        let (r, _) = measured(|| rawdb::Database::open(&dir));
+        match r {
+            Err(p) => fz.must(false, &format!("regions-file|panic|{}", normalize_msg(&p)), format!("Database::open panicked on a crafted regions file: {p}")),
+            Ok(Err(e)) => fz.must(false, "regions-file|open-failed", format!("Database::open failed on a regions file with damaged slots next to valid ones: {e}")),
+            Ok(Ok(db)) => {
+                let mut have: Vec<(String, u64, u64, u64)> = {
+                    let regs = db.regions();
+                    regs.id_to_index().keys().map(|k| k.to_string()).collect::<Vec<_>>()
+                }
+                .into_iter()
+                .filter_map(|k| db.get_region(&k).map(|r| { let m = r.meta(); (k, m.start() as u64, m.len() as u64, m.reserved() as u64) }))
+                .collect();
+                have.sort();
+                want.sort();
+                fz.must(have == want, "regions-file|valid-slots-disturbed", format!("after open the regions are {have:?}, the valid slots were {want:?}"));
+            }
+        }
+    }
+}
+
+/// One shard of the fuzz campaign (runs in a child process). Prints a JSON line.
+pub fn c17_shard(seed: u64, shard: u64, secs: f64) -> i32 {
+    let start = std::time::Instant::now();
+    let mut stats = Counter::default();
+    let mut rng = Rng::derive(seed, &[17, shard]);
+    let mut fz = Fz { stats: &mut stats, fail: None };
+    let mut rounds = 0u64;
+    numeric_roundtrips(&mut fz, &mut rng);
+    while start.elapsed().as_secs_f64() < secs && fz.fail.is_none() {
+        fuzz_metadata(&mut fz, &mut rng, 40);
+        fuzz_header_page(&mut fz, &mut rng, 40);
+        fuzz_changes(&mut fz, &mut rng, 2);
+        fuzz_regions_file(&mut fz, &mut rng, 2);
+        numeric_roundtrips(&mut fz, &mut rng);
+        rounds += 1;
+    }
+    let fail = fz.fail.take();
+    let out = json!({
+        "shard": shard,
+        "rounds": rounds,
+        "stats": stats.to_json(),
+        "fail": fail.map(|(sig, what, detail)| json!({"sig": sig, "what": what, "detail": detail})),
+    });
+    println!("C17SHARD {out}");
+    0
+}
+
+pub fn check_c17(ctx: &Ctx) -> i32 {
+    let report = Report::new("C17");
+    let secs = ctx.secs(20.0, 200.0);
+    let exe = std::env::current_exe().expect("current exe");
+    let mut children = vec![];
+    for shard in 0..ctx.threads as u64 {
+        let c = Command::new(&exe)
+            .args(["c17-shard", &ctx.seed.to_string(), &shard.to_string(), &format!("{secs}")])
+            .stdout(Stdio::piped())
+            .stderr(Stdio::null())
+            .spawn();
+        match c {
+            Ok(c) => children.push((shard, c)),
+            Err(e) => report.harness_error(format!("cannot spawn shard {shard}: {e}")),
+        }
+    }
+    let mut stats = Counter::default();
+    let mut rounds = 0u64;
+    let mut samples: Vec<Value> = vec![];
+    for (shard, c) in children {
+        let out = c.wait_with_output();
+        match out {
+            Ok(o) => {
+                let text = String::from_utf8_lossy(&o.stdout);
+                let line = text.lines().find_map(|l| l.strip_prefix("C17SHARD "));
+                match (o.status.success(), line.and_then(|l| serde_json::from_str::<Value>(l).ok())) {
+                    (true, Some(v)) => {
+                        rounds += v["rounds"].as_u64().unwrap_or(0);
+                        if let Some(m) = v["stats"].as_object() {
+                            for (k, n) in m {
+                                stats.add(k, n.as_u64().unwrap_or(0));
+                            }
+                        }
+                        if let Some(f) = v["fail"].as_object() {
+                            report.violation(ctx, Violation { sig: format!("C17|{}", f["sig"].as_str().unwrap_or("?")), what: f["what"].as_str().unwrap_or("").to_string(), detail: json!({"shard": shard, "seed": ctx.seed, "case": f["detail"]}) });
+                        }
+                    }
+                    _ => {
+                        // died without a report: abort (allocation failure), stack overflow, signal
+                        report.violation(ctx, Violation { sig: "C17|decoder-aborted-the-process".into(), what: format!("fuzz shard {shard} (seed {}) died with {:?} - a decoder aborted the process (allocation failure / overflow)", ctx.seed, o.status), detail: json!({"shard": shard, "seed": ctx.seed, "replay": format!("anydb-verif c17-shard {} {shard} {secs}", ctx.seed)}) });
+                    }
+                }
+            }
+            Err(e) => report.harness_error(format!("shard {shard}: {e}")),
+        }
+    }
+    if samples.is_empty() {
+        samples.push(json!({"codec": "RegionMetadata", "valid": "start 4096k, len<=reserved, reserved page multiple, utf-8 id <= 1024 bytes", "invalid": "misaligned start, reserved 0/4095/4097, len > reserved, id_len 1025/2^32/2^63/u64::MAX, non-UTF-8 id", "mutations": ["truncated at a random length", "single / multi bit flips", "each 8-byte field overwritten with 0,1,4095,4096,4097,2^32+-1,2^40,2^63,u64::MAX-k", "extended"]}));
+        samples.push(json!({"codec": "change records", "cases": "well-formed base/raw records for u8,u32,u64,u128,[u8;3]; cut at EVERY byte length; length fields overwritten with limit values; bit flips"}));
+    }
+    let decodes: u64 = stats.0.iter().filter(|(k, _)| k.starts_with("decode:")).map(|(_, v)| *v).sum();
+    if decodes == 0 {
+        report.harness_error("no decoder call was made");
+    }
+    let by_codec = |prefix: &str| -> serde_json::Map<String, Value> {
+        let mut m = serde_json::Map::new();
+        for (k, v) in &stats.0 {
+            if let Some(r) = k.strip_prefix(prefix) {
+                m.insert(r.to_string(), json!(v));
+            }
+        }
+        m
+    };
+    let coverage = json!({
+        "evaluations": decodes,
+        "distinct_nontrivial": stats.0.keys().filter(|k| k.starts_with("decode:")).count() as u64 * rounds.max(1),
+        "rule": "one evaluation = one decoder call on one input inside a child process: valid encodings of structured values at and around the limits (must decode to exactly the encoded fields), and truncations / single and multiple bit flips / every length field overwritten with limit values / extensions of valid encodings (must return an error or a value satisfying the type's rules; a panic, an abort of the child, or a peak allocation above 4 x input + 64 KiB measured by a counting allocator is a violation). Codecs: RegionMetadata slots, crafted regions files opened with Database::open (exactly the valid slots must be present), vector headers, page-index entries, Stamp/Version/Format, all numeric Bytes impls, byte arrays of 16 widths, derive(Bytes), base and raw change records for 5 element types (cut at every byte length). distinct_nontrivial = (codec, mutation kind) classes x fuzz rounds (each round draws fresh random values)",
+        "samples": samples,
+        "fuzz_rounds": rounds,
+        "shards": ctx.threads,
+        "decoder_calls_by_codec_and_mutation": by_codec("decode:"),
+        "accepted_by_codec": by_codec("accepted:"),
+        "rejected_by_codec": by_codec("rejected:"),
+    });
+    report.finish(ctx, "exploration", coverage, &["native release build (overflow checks off); the dev-profile and Miri passes are separate commands of the thorough tier"])
+}
